@@ -83,6 +83,13 @@ def gen_structured(ctx, n):
         exact_wanted = r.random() < 0.6
         how = r.choice(LAYERSETS)
         layers = M.gen_layers(r, len(mesh["sizes"]), nd, how, exact=exact_wanted)
+        if r.random() < 0.07:
+            # NaN cell values in one scalar layer (the mask is taken from the LAST binned layer)
+            sc = [l for l in layers if l["kind"] == "scalar"]
+            if sc:
+                lay = r.choice(sc)
+                for k in r.sample(range(len(lay["vals"])), max(1, len(lay["vals"]) // 5)):
+                    lay["vals"][k] = None
         c = base_case(r, mesh, layers)
         style = r.choice(["boxcentre", "cellcentre", "face", "corner", "generic", "generic", "outside"])
         o, sref = pick_origin(r, mesh, style)
@@ -203,6 +210,13 @@ def witness_cases():
     c.update(origin=[0.5, 0.5, 0.25], direction={"kind": "letter", "s": "z"}, dx={"v": 1.0, "unit": "cm"}, res=4,
              tags=["witness", "3d", "letter", "boxcentre", "radial_2x2x2_full_window"])
     out.append(c)
+    # dx omitted, one cell whose centre is more than half a cell below an oblique plane that cuts it:
+    # the depth step `zmax` taken from the extent of the selected cells is negative
+    one = {"ndim": 3, "den": 8, "centres": [[-2, 2, -2]], "sizes": [4], "box": {"lo": [-4, 0, -4], "side": 4}, "complete": True, "levels": 1}
+    c = base_case(None, one, [{"key": "density", "kind": "scalar", "unit": "g/cm**3", "vals": [1.0]}])
+    c.update(origin=[0.16994558291143022, 0.13640690182390156, -0.24027215633981705], direction={"kind": "vec", "v": [3, 0, 4]}, dx=None, res=5,
+             tags=["witness", "3d", "vec", "outside", "dx_omitted_cell_below_oblique_plane"])
+    out.append(c)
     m = M.uniform_mesh(2, 2)
     c = base_case(None, m, [{"key": "density", "kind": "scalar", "unit": "g/cm**3", "vals": [1.0, 2.0, 3.0, 4.0]}])
     c.update(origin=[0.5, 0.5, 0.0], direction={"kind": "letter", "s": "z"}, dx={"v": 1.0, "unit": "cm"}, res=4,
@@ -222,6 +236,19 @@ def build_cases(ctx):
 # --------------------------------------------------------------------------------------------
 # evaluation of one batch
 # --------------------------------------------------------------------------------------------
+def basis_ok(obs):
+    import math
+
+    for nm in "nuv":
+        vec = obs.get(nm)
+        if vec is None or not all(math.isfinite(t) for t in vec):
+            return False
+    for nm in "uv":
+        if abs(sum(t * t for t in obs[nm]) - 1.0) > 1e-6:
+            return False
+    return True
+
+
 def evaluate(ctx, out, cases, sel, dist, prop=PROP):
     """impl (one thread), model as coded + Spec; fills `out`. Returns per-case records."""
     osy = ctx.osyris
@@ -229,6 +256,12 @@ def evaluate(ctx, out, cases, sel, dist, prop=PROP):
     lines = []
     for c in cases:
         obs = M.observe(osy, c)
+        if not basis_ok(obs):
+            # 'top' / 'side' on data without angular momentum around the origin (e.g. a single cell): the library has no
+            # orientation to offer (NaN basis); C03 and C18 quantify over orientations that exist
+            out.evaluations += 1
+            out.extra["outside_claim_no_orientation"] = out.extra.get("outside_claim_no_orientation", 0) + 1
+            continue
         impl = M.run_impl(osy, c, threads=1)
         recs.append({"case": c, "obs": obs, "impl": impl})
         lines.append(M.lean_line(c, obs, sel))
@@ -265,6 +298,14 @@ def evaluate(ctx, out, cases, sel, dist, prop=PROP):
                                 "spec_accept": spec.get("accept")})
         # ---- impl vs Spec
         viols, skipped = M.compare_spec(c, obs, impl, ans, lane)
+        nan_last = c["layers"][-1]["kind"] == "scalar" and any(v is None for v in c["layers"][-1]["vals"])
+        if nan_last:
+            # NaN values in the last layer mask the pixel in every layer (mask = isnan(binned[-1])): outside the claim
+            # (ASSUMPTIONS); the model mirrors it and is still compared below
+            out.extra["outside_claim_nan_in_last_layer"] = out.extra.get("outside_claim_nan_in_last_layer", 0) + 1
+            viols = []
+        if any(v is None for l in c["layers"] if l["kind"] == "scalar" for v in l["vals"]):
+            dist["nan_cell_values"] = dist.get("nan_cell_values", 0) + 1
         if ans.get("err") == "noCells" and "raised" in impl:
             viols = []          # empty map: refused by design
         out.near_tie_skipped += skipped
@@ -321,7 +362,9 @@ def shrink(ctx, case, sel, v, cls):
     best, bv = case, v
     try:
         cells = v.get("cells")
-        if cells:
+        # 'top' / 'side' take the orientation from the data (angular momentum of the cells around the origin): removing
+        # cells would change the question, so such cases are reported unpruned
+        if cells and case["direction"].get("kind") != "str":
             cand = M.prune_case(case, cells)
             f = [x for x, k in spec_fails(ctx, cand, sel) if k == cls]
             if f:
